@@ -128,6 +128,20 @@ CLAIMED = {
    note='The MAC is an assumed contract (returns arbitrary general bytes). Not covered yet: llc.exchange/run loops, '
         'SNEP/handover servers, connect(); thread death and blocking are outside this family (DESIGN section 6).',
    technique='contract-based deductive verification: raises = documented classes over fully symbolic byte strings (pyvc)'),
+ 'C13': dict(
+   category='proof',
+   text='raises-clauses over symbolic chipset behaviour: pn53x Device.send_cmd_recv_rsp and send_rsp_recv_cmd (verified '
+        'on pn532.Device with the real pn532.Chipset wrappers; every host command of the exchange may independently '
+        'return, raise IOError or raise Chipset.Error with any status 1..255, as C14 proves for Chipset.command) and '
+        'rcs380 Device.send_cmd_recv_rsp/send_rsp_recv_cmd (every send_command may return a payload, None or raise '
+        'IOError; all 32-bit communication status words): only nfc.clf.TimeoutError, TransmissionError, '
+        'BrokenLinkError, ProtocolError or IOError escape for all target kinds. ContactlessFrontend.exchange adds '
+        'nothing but IOError(ENODEV) and releases its lock on every path.',
+   design_ref='DESIGN.md section 5 (C13)',
+   note='Assumed: a well-framed response carries the payload length its command defines; pn532 TT1 bit-reversal path '
+        'and the CRC check are assumed total. Not covered: pn531/pn533/rcs956/acr122/arygon specific overrides, udp, '
+        'listen-mode TT3 path, the status-to-class mapping clause beyond class membership.',
+   technique='contract-based deductive verification: raises-clauses, modular over the C14 command contract (pyvc)'),
 }
 
 NOT_APPLICABLE = {}
